@@ -129,7 +129,7 @@ def run(F, chk):
             if n["k"] == "OpCall" and n.get("op") == "=" and n.get("args") and is_node(n["args"][0]) and \
                     n["args"][0]["k"] == "Member" and n["args"][0].get("name") == "hdr" and n["args"][0].get("owner") == "nifly::NifFile":
                 # the assigned header still carries the source's pointer until SetBlockReference(&blocks)
-                return st | {("D", "hdr:foreign")}
+                return st | {("D", "hdr:foreign"), ("D", "hdr:assigned")}
             if n["k"] in ("Call", "OpCall") and ("D", "hdr:foreign") in st and n.get("fn") != "nifly::NiHeader::SetBlockReference":
                 ts = set(F.call_targets(n) or [])
                 if ts and any((t in deref) or (F.reachable([t]) & deref) for t in ts if t in F.fns):
@@ -152,7 +152,9 @@ def run(F, chk):
     fl = Relink(F, copyfrom)
     fl.run()
     for need in ("setref:blocks", "linkgeom"):
-        ok = bool(fl.exits) and all(("D", need) in st for _, _, st in fl.exits)
+        # an exit that copied nothing (the self-assignment early return) has nothing to re-link
+        copied = [st for _, _, st in fl.exits if st is not None and (("D", "clone") in st or ("D", "hdr:assigned") in st)]
+        ok = bool(copied) and all(("D", need) in st for st in copied)
         chk.instance(R2, ok=ok, sample={"fn": "NifFile::CopyFrom", "must_call": need})
         if not ok:
             chk.violation("R11.2", "C11/R11.2:CopyFrom:%s" % need, where(copyfrom),
@@ -409,6 +411,39 @@ def run(F, chk):
                     chk.violation("R11.5", "C11/R11.5:%s->%s" % (fn["name"], n.get("short")), where(fn, n),
                                   "the shared factory register is mutated outside its constructor")
     chk.floor(R5, 100)
+
+    # ---------------- R11.7 self-assignment
+    R7 = chk.rule("R11.7", "CopyFrom discards the receiver's old content (Clear) before it reads the source, so it first rules out that the "
+                           "source *is* the receiver: on every path to the first discarding call a test `this == &other` (or its "
+                           "negation with an early return) has been made — `model = model` would otherwise copy from the model it has "
+                           "just emptied")
+    other_p = copyfrom["params"][0] if copyfrom.get("params") else None
+    first_clear = []
+
+    class SelfAssign(flow.Flow):
+        def on_node(self, n, st):
+            if st is None or n["k"] != "Call":
+                return st
+            discards = (n.get("fn") in ("nifly::NifFile::Clear",) and (n.get("recv") is None or n["recv"]["k"] == "This")) or \
+                       (n.get("ext") and n.get("short") in ("clear", "resize") and is_node(n.get("recv")) and
+                        n["recv"]["k"] == "Member" and n["recv"].get("name") == "blocks" and n["recv"].get("owner") == "nifly::NifFile")
+            if discards and not self.muted:
+                tested = any(f[0] == "G" and "this" in f[1] and other_p is not None and ("&" + other_p["name"]) in f[1].replace(" ", "")
+                             and "==" in f[1] and f[2] is False for f in st)
+                first_clear.append((n, tested))
+            return st
+
+    sa = SelfAssign(F, copyfrom)
+    sa.run()
+    bad7 = [n for n, t in first_clear if not t]
+    chk.instance(R7, ok=bool(first_clear) and not bad7, sample={"fn": "NifFile::CopyFrom", "discarding_calls": len(first_clear), "untested": len(bad7)})
+    if not first_clear:
+        raise report.Broken("R11.7: CopyFrom no longer discards the receiver's content through Clear()/blocks.clear()/resize — rule needs re-anchoring")
+    if bad7:
+        chk.violation("R11.7", "C11/R11.7:CopyFrom:self", where(copyfrom, bad7[0]),
+                      "NifFile::CopyFrom discards the receiver's content (%s) without having tested `this == &%s`: assigning a model "
+                      "to itself empties it and then copies from the emptied model" % (show(bad7[0])[:40], other_p["name"] if other_p else "other"))
+    chk.floor(R7, 1)
 
     # ---------------- R11.6 the copy is not edited after it was cloned
     R6 = chk.rule("R11.6", "apart from cloning, CopyFrom changes nothing inside the blocks of the copy except the re-linked caches: no "
